@@ -94,6 +94,7 @@ def oracle(ctx, case, res, real):
                                             case_input(case), [name, s, q], [c[1] for c in cands]))
     check_documented_intervals(ctx, case, real)
     marked_vs_trim(ctx, case, real)
+    linked_retain(ctx, case, real)
 
 
 def check_documented_intervals(ctx, case, real):
@@ -148,6 +149,39 @@ def check_documented_intervals(ctx, case, real):
             if out[1] != exp:
                 ctx.failures.append(Failure(f"C03/{action}-interval" + ("-pair-adapters" if pair else ""),
                                             f"--action={action} does not keep the documented interval", case_input(case), out[1], exp))
+
+
+def linked_retain(ctx, case, real):
+    """--action=retain with one linked adapter: the read from the start of the 5' occurrence to the end of the 3' occurrence (recomputed
+    from the two parts searched one after the other, the way the documentation describes a linked adapter)"""
+    argv = case["argv"]
+    if not case.get("linked_retain") or "error" in real:
+        return
+    import cutadapt.cli as cli
+    import pipe
+    parser = cli.get_argument_parser()
+    _, in_args = pipe.inputs_of(case)
+    ad = cli.adapters_from_args(parser.parse_args(list(argv) + in_args))[0][0]
+    outs = {rid(r[0]): r for fn, side, recs in pipeprop.output_roles(case, real) for r in recs}
+    for name, s, q in case["reads1"]:
+        fm = ad.front_adapter.match_to(s)
+        if fm is None and ad.front_required:
+            exp = (s, q)
+        else:
+            rest = s[fm.rstop:] if fm else s
+            off = fm.rstop if fm else 0
+            bm = ad.back_adapter.match_to(rest)
+            if bm is None and (ad.back_required or fm is None):
+                exp = (s, q)
+            else:
+                a = fm.rstart if fm else 0
+                b = off + bm.rstop if bm else len(s)
+                exp = (s[a:b], q[a:b])
+        got = outs.get(rid(name))
+        ctx.count("linked-retain-checked")
+        if got is not None and (got[1], got[2]) != exp:
+            ctx.failures.append(Failure("C03/retain-interval-linked", "--action=retain with a linked adapter does not keep the read from the start of the 5' "
+                                        "occurrence to the end of the 3' occurrence", case_input(case), [got[1], got[2]], list(exp)))
 
 
 def marked_vs_trim(ctx, case, real):
@@ -238,6 +272,35 @@ def run(ctx):
         directed.append(dict(argv=argv, paired=True, reads1=r1, reads2=r2, with_qual=True, interleaved_in=False))
         argv = ["--no-index", "-a", "a0=" + X, "-g", "a1=" + Y, "--times", "2", "--action", action if action != "retain" else "mask", "-o", "{dir}/o1.fastq"]
         directed.append(dict(argv=argv, paired=False, reads1=r1, reads2=None, with_qual=True, interleaved_in=False))
+    # linked adapters whose occurrences contain insertions and deletions (aligned adapter length != matched read length) x actions
+    def mutate(t):
+        t = list(t)
+        for _ in range(ctx.rng.choice([0, 1, 1, 2])):
+            j = ctx.rng.randrange(len(t))
+            y = ctx.rng.random()
+            if y < 0.4:
+                del t[j]
+            elif y < 0.8:
+                t.insert(j, ctx.rng.choice("ACGT"))
+            else:
+                t[j] = ctx.rng.choice("ACGT")
+        return "".join(t)
+    for _ in range(ctx.scale(40, 600)):
+        F, B = ctx.rng.choice([("ACGGATTCAGGCTTAC", "GCTTAGGACCATTGCA"), ("AAAGGGCCCTTTGG", "TTAGGCATCGGATC")])
+        fa = ctx.rng.choice(["^", ""]) + F + ctx.rng.choice(["", ";optional", ";required"])
+        ba = B + ctx.rng.choice(["$", ""]) + ctx.rng.choice(["", ";optional", ";required"])
+        action = ctx.rng.choice(["retain", "retain", "trim", "mask", "lowercase", "none"])
+        argv = ["--no-index", ctx.rng.choice(["-a", "-g"]), f"a0={fa}...{ba}", "-e", "0.2", "--action", action, "-o", "{dir}/o1.fastq"]
+        reads = []
+        for i in range(6):
+            x = ctx.rng.random()
+            s_ = (mutate(F) if x < 0.8 else "") + pipe.rs(ctx.rng, ctx.rng.randint(3, 12)) + (mutate(B) if ctx.rng.random() < 0.8 else "")
+            if not fa.startswith("^") and ctx.rng.random() < 0.4:
+                s_ = pipe.rs(ctx.rng, ctx.rng.randint(1, 4)) + s_
+            if "$" not in ba and ctx.rng.random() < 0.4:
+                s_ += pipe.rs(ctx.rng, ctx.rng.randint(1, 4))
+            reads.append((f"r{i}", s_, "".join(chr(33 + ctx.rng.randint(2, 40)) for _ in s_)))
+        directed.append(dict(argv=argv, paired=False, reads1=reads, reads2=None, with_qual=True, interleaved_in=False, linked_retain=(action == "retain")))
     for case, res, real, model in pipe.run_cases(ctx, directed):
         oracle(ctx, case, res, real)
     # runs that go through the adapter index (several anchored adapters, default mode): every action, one or two rounds
